@@ -161,7 +161,12 @@ func runDeclCheck(c *Ctx, r *Reporter) {
 		key, text string
 		match     func(cond ssa.Value) (falseEdge int, ok bool) // which successor means "name is free"
 	}
+	origValSSA := valSSA
+	var nameParam *ssa.Parameter // when the decision was moved into a helper: the helper's parameter that receives v.Name
 	isNameOfParam := func(v ssa.Value) bool {
+		if nameParam != nil {
+			return v == ssa.Value(nameParam)
+		}
 		u, ok := v.(*ssa.UnOp)
 		if !ok {
 			return false
@@ -174,6 +179,70 @@ func runDeclCheck(c *Ctx, r *Reporter) {
 		prm, ok := fa.X.(*ssa.Parameter)
 		return ok && fname == "Name" && len(valSSA.Params) > 1 && prm == valSSA.Params[1]
 	}
+	// delegation: validateVarDecl answers true exactly when a helper of the package returns "" (no complaint)
+	acceptConst := "true"
+	{
+		hasLookup := false
+		for _, b := range valSSA.Blocks {
+			for _, ins := range b.Instrs {
+				if _, ok := ins.(*ssa.Lookup); ok {
+					hasLookup = true
+				}
+			}
+		}
+		if !hasLookup {
+			for _, b := range valSSA.Blocks {
+				if len(b.Instrs) == 0 {
+					continue
+				}
+				ifi, ok := b.Instrs[len(b.Instrs)-1].(*ssa.If)
+				if !ok {
+					continue
+				}
+				bo, ok := ifi.Cond.(*ssa.BinOp)
+				if !ok || (bo.Op != token.EQL && bo.Op != token.NEQ) {
+					continue
+				}
+				call, ok := bo.X.(*ssa.Call)
+				k, ok2 := bo.Y.(*ssa.Const)
+				if !ok || !ok2 || k.Value == nil || k.Value.ExactString() != `""` || call.Call.StaticCallee() == nil || call.Call.StaticCallee().Blocks == nil {
+					continue
+				}
+				emptyEdge := 0
+				if bo.Op == token.NEQ {
+					emptyEdge = 1
+				}
+				// the true answers lie on the edge where the helper had no complaint, the false answers on the other
+				okDeleg := true
+				for _, ret := range returnsOf(valSSA) {
+					for _, v := range resultValues(ret, 0) {
+						kc, isC := v.(*ssa.Const)
+						if !isC || kc.Value == nil {
+							okDeleg = false
+							continue
+						}
+						if constant.BoolVal(kc.Value) != edgeDominates(b, emptyEdge, ret.Block()) {
+							okDeleg = false
+						}
+					}
+				}
+				if !okDeleg {
+					continue
+				}
+				h := call.Call.StaticCallee()
+				for i, a := range call.Call.Args {
+					if isNameOfParam(a) && i < len(h.Params) {
+						nameParam = h.Params[i]
+					}
+				}
+				if nameParam != nil {
+					valSSA = h
+					acceptConst = `""`
+				}
+			}
+		}
+	}
+	_ = origValSSA
 	lookupIn := func(field string) func(ssa.Value) (int, bool) {
 		return func(cond ssa.Value) (int, bool) {
 			neg := false
@@ -231,11 +300,13 @@ func runDeclCheck(c *Ctx, r *Reporter) {
 		for _, v := range resultValues(ret, 0) {
 			switch k := v.(type) {
 			case *ssa.Const:
-				if k.Value != nil && constant.BoolVal(k.Value) {
+				if k.Value != nil && k.Value.ExactString() == acceptConst {
 					trueRets = append(trueRets, ret.Block())
 				}
 			default:
-				undecidedRet = true
+				if acceptConst == "true" {
+					undecidedRet = true
+				} // a helper that returns messages: everything but "" is a complaint
 			}
 		}
 	}
@@ -343,7 +414,7 @@ func scopeNameTests(p *Program, pkg *packages.Package, r *Reporter) {
 			switch {
 			case isAnonTest(cond, sf.Params[1], 1):
 				nTests++
-			case isNilTestOf(cond, sf.Params[0]):
+			case isNilTestOfCursor(cond, sf):
 			case isLookupOk(cond):
 			default:
 				bad = "`" + cond.String() + "`"
@@ -370,6 +441,43 @@ func isNilTestOf(cond ssa.Value, v ssa.Value) bool {
 	}
 	k, ok := bo.Y.(*ssa.Const)
 	return ok && k.IsNil() && bo.X == v
+}
+
+// isScopeCursor: v walks the scope chain outwards from the receiver: the receiver itself, or a phi of the receiver
+// and loads of the `outer` field of the cursor (the loop form of the recursive look-up).
+func isScopeCursor(v ssa.Value, fn *ssa.Function, seen map[ssa.Value]bool) bool {
+	if len(fn.Params) > 0 && v == ssa.Value(fn.Params[0]) {
+		return true
+	}
+	if seen[v] {
+		return true
+	}
+	seen[v] = true
+	switch x := v.(type) {
+	case *ssa.Phi:
+		for _, e := range x.Edges {
+			if !isScopeCursor(e, fn, seen) {
+				return false
+			}
+		}
+		return len(x.Edges) > 0
+	case *ssa.UnOp:
+		if fa, ok := x.X.(*ssa.FieldAddr); ok && x.Op == token.MUL {
+			if _, f := fieldAddrInfo(fa); f == "outer" {
+				return isScopeCursor(fa.X, fn, seen)
+			}
+		}
+	}
+	return false
+}
+
+func isNilTestOfCursor(cond ssa.Value, fn *ssa.Function) bool {
+	bo, ok := cond.(*ssa.BinOp)
+	if !ok || (bo.Op != token.EQL && bo.Op != token.NEQ) {
+		return false
+	}
+	k, ok := bo.Y.(*ssa.Const)
+	return ok && k.IsNil() && isScopeCursor(bo.X, fn, map[ssa.Value]bool{})
 }
 
 func isLookupOk(cond ssa.Value) bool {
